@@ -144,7 +144,7 @@ fn o12_3_stale_time_sensitive_discarded() {
     let stale1 = m1 == SendMode::TimeSensitive && f1 != e;
     match r {
         Some((p, _)) => {
-            let len = p.borrow().size();
+            let len = p.borrow().datagram(0).data.len();
             if stale0 {
                 assert!(len == 2 && !stale1, "[C12] a TimeSensitive packet from an earlier flush is never handed out");
                 assert!(s.total_size() == 2, "[C20] a discarded stale packet leaves the counter");
@@ -263,7 +263,7 @@ fn o20_1_stale_multifragment_time_sensitive() {
     let r = s.emit_packet(f1);
     match &r {
         Some((p, resend)) => {
-            assert!(p.borrow().size() == 2 && *resend, "[C12] the stale TimeSensitive packet is never handed out");
+            assert!(p.borrow().datagram(0).data.len() == 2 && *resend, "[C12] the stale TimeSensitive packet is never handed out");
             assert!(p.borrow().datagram(0).sequence_id == base);
         }
         None => panic!("[C05] a sendable packet was withheld"),
@@ -281,7 +281,7 @@ impl PacketSender {
     }
 }
 
-//@h props=C06,C05,C20 tier=quick timeout=900 role=sender-alloc-limit also_quick=C05 args=--no-memory-safety-checks
+//@h props=C06,C05,C20 tier=quick timeout=900 role=sender-alloc-limit also_quick=C05,C20 args=--no-memory-safety-checks
 //@fn PacketSender::{enqueue_packet, emit_packet, acknowledge}, alloc_size
 //@assume Kani pointer checks off in this accounting obligation (the same functions run with them on in o5_1/o3_3)
 //@bound W=4, base 2^20-1, peer allocation limit 2 fragments (2896 bytes); queue = [100 bytes Unreliable, 1449 bytes Reliable (two fragments: charged 2896 by the receiver)]; then the peer acknowledges the first packet
